@@ -20,6 +20,7 @@ def entry_pools(rng, npools):
             [tg.arr(P("string"), 2), tg.vec(P("string")), tg.tup(P("string"), P("string"))],
             [tg.opt(P("u32"))], [tg.var(P("i32"), P("string"))], [s_small], [tg.vec(s_small)], [P("double")], [tg.enum("u8")],
             [tg.res(tg.enum("i32"), P("string"))], [tg.arr(P("u8"), 4), tg.vec(P("u8"))],
+            [tg.arr(tg.enum("i32"), 3), tg.vec(tg.enum("i32"))], [tg.vec(P("string"))], [tg.vec(P("u16"))],     # arrays of variable-width elements; values that may be empty sequences
         ]
         n = rng.choice([4, 5, 6])
         chosen = rng.sample(cands, n)
